@@ -98,9 +98,12 @@ Example cx_dead_player_panics :
   snd (tei_get_move (proc unit) cx_eng c2 1%Z p14 None None) = RPanic PDeadPlayer.
 Proof. vm_compute. reflexivity. Qed.
 
-(* a deadline that has passed (or lies less than 1 ms ahead) is sent as `movetime 0`, which the engine reads as NO time limit *)
-Example cx_deadline_passed :
-  exists ws, go_words (Some (-5)%Z) None = Some ws /\ go_line ws = str "go movetime 0" /\
+(* a deadline that has passed (or lies less than 1 ms ahead): the repaired client refuses it; the code before the repair sent it
+   as `movetime 0`, which the engine reads as NO time limit *)
+Example cx_deadline_passed_refused : go_words (Some (-5)%Z) None = None /\ go_words (Some 999999%Z) (Some cx_tc) = None.
+Proof. split; vm_compute; reflexivity. Qed.
+Example cx_deadline_passed_pinned :
+  exists ws, go_words_pinned (Some (-5)%Z) None = Some ws /\ go_line ws = str "go movetime 0" /\
     exists a, parse_go (tl ws) targs0 = Some a /\ go_limit true a = None.
 Proof.
   exists [s_go; s_movetime; str "0"]. split; [vm_compute; reflexivity|]. split; [vm_compute; reflexivity|].
